@@ -65,6 +65,9 @@ pub fn kp(seed: u64, tag: u64) -> Keypair {
 
 pub const JUP: Pubkey = solana_sdk::pubkey!("JUP6LkbZbjS1jKKwapdHNy74zcZ3tLUZoi5QNyVTaV4");
 pub const FOREIGN_PROG: Pubkey = solana_sdk::pubkey!("Fore1gnProgram11111111111111111111111111111");
+/// a do-nothing program at an id the receivership validator allows (Titan) and at a foreign id
+pub const TITAN: Pubkey = solana_sdk::pubkey!("T1TANpTeScyeqVzzgNViGDNrkQ6qHz9KrSBS4aNXvGT");
+pub const NOOP_PROG: Pubkey = solana_sdk::pubkey!("NoopProgram11111111111111111111111111111111");
 
 impl Chain {
     pub async fn start(seed: u64, extra_accounts: Vec<(Pubkey, Account)>) -> Chain {
@@ -75,6 +78,8 @@ impl Chain {
         pt.add_program("jupproxy", JUP, processor!(tap::proxy_entry));
         pt.add_program("foreignproxy", FOREIGN_PROG, processor!(tap::proxy_entry));
         pt.add_program("mocks", mocks::ID, processor!(tap::mocks_entry));
+        pt.add_program("titan_noop", TITAN, processor!(tap::noop_entry));
+        pt.add_program("noop", NOOP_PROG, processor!(tap::noop_entry));
         let payer = kp(seed, 0xFEE);
         pt.add_account(
             payer.pubkey(),
